@@ -18,7 +18,7 @@ LEVEL = "exploration"
 RULE = (
     "one case per (history, prefix, probe): histories of 1-12 assemblies in one process (valid programs, programs failing in the scanner, "
     "parser, expansion, label pass and emission, .map programs, other ROM types, programs whose data ends with the last byte of a mapped region, programs that abandon an expression half-way, programs re-using the probes' macro/symbol/label/table/"
-    "file names with other contents, file-API and in-process CLI runs) followed after every prefix by 38 probes (LoROM, HiROM, low2, .map, "
+    "file names with other contents, file-API and in-process CLI runs) followed after every prefix by 44 probes (LoROM, HiROM, low2, .map, "
     "macros, tables, .incbin, -D, failing probes); each probe result (blocks, labels, root symbols, error kind and text with object "
     "addresses normalised) is compared with the same probe assembled alone in a fresh interpreter, and probes are repeated; batches of probes are also assembled on Program objects that were all constructed before the first of them ran; distinct by "
     "hash of (history prefix, probe); non-trivial = every comparison against a fresh-process baseline"
@@ -61,11 +61,20 @@ def fixed_probes() -> list[dict]:
          "files": {"outer_inc.s": "out_l:\n.include 'cfg/inner_inc.s'\n.dw region_k, out_l\n", "cfg/inner_inc.s": "region_k := 0x11\nlda.w #0xBEEF\n"}},
         {"name": "include_nested_other_inner", "src": "*=0x008000\n.db 1\n.include 'outer_inc.s'\n.db 2\n", "rom": None,
          "files": {"outer_inc.s": "out_l:\n.include 'cfg/inner_inc.s'\n.dw region_k, out_l\n", "cfg/inner_inc.s": "region_k := 0x22\nldx.w #0x0042\nrts\n"}},
+        # two versions of an included file (and of a table, a binary) of exactly the same length
+        {"name": "include_same_size_a", "src": "*=0x008000\n.db 1\n.include 'sized_inc.s'\n.table 'sized.tbl'\n.text 'AB'\n.incbin 'sized.bin'\n", "rom": None,
+         "files": {"sized_inc.s": "lda #0x11\nsta.w 0x2100\n", "sized.tbl": "41=A\n42=B\n", "sized.bin": b"\x01\x02\x03"}},
+        {"name": "include_same_size_b", "src": "*=0x008000\n.db 1\n.include 'sized_inc.s'\n.table 'sized.tbl'\n.text 'AB'\n.incbin 'sized.bin'\n", "rom": None,
+         "files": {"sized_inc.s": "ldx #0x22\nstx.w 0x4200\n", "sized.tbl": "51=A\n52=B\n", "sized.bin": b"\x09\x08\x07"}},
         {"name": "include_ips", "src": "*=0x008000\n.db 1\n.include_ips 'shared.ips', 0x200\n.db 2\n", "rom": None, "files": {"shared.ips": IPS_SHARED}},
         {"name": "include_ips_twice", "src": "*=0x008000\n.include_ips 'shared.ips', 0x1000\n.include_ips 'shared.ips', 0 - 0x200\n.db 3\n", "rom": None, "files": {"shared.ips": IPS_SHARED}},
         {"name": "reloc", "src": "*=0x008000\n@=0x7e0000\nram_code:\nlda.l ram_code\n*=0x018000\n.dl ram_code\n", "rom": None},
         {"name": "fail_deep_recursion", "src": "*=0x008000\n.macro cdown(pn) {\n.db pn & 0xff\n.if pn {\ncdown(pn - 1)\n}\n}\ncdown(600)\n", "rom": None},
         {"name": "fail_scan", "src": "*=0x008000\nlda.q 1\n", "rom": None},
+        {"name": "fail_unknown_directive_incsrc", "src": "*=0x008000\n.db 1\n.incsrc 'shared_inc.s'\n", "rom": None},
+        {"name": "fail_unknown_directive_inclue", "src": "*=0x008000\n.inclue 'shared_inc.s'\n.db 1\n", "rom": None},
+        {"name": "fail_unknown_directive_tabel", "src": "*=0x008000\n.tabel 'shared.tbl'\n.dbb 1\n", "rom": None},
+        {"name": "fail_unknown_mnemonic", "src": "*=0x008000\nldaa #1\nst 0x10\n", "rom": None},
         {"name": "fail_symbol", "src": "*=0x008000\nlda.w shared_k\n", "rom": None},
         {"name": "fail_macro", "src": "*=0x008000\nshared_m(1)\n", "rom": None},
         {"name": "fail_table", "src": "*=0x008000\n.text 'ABC'\n", "rom": None},
@@ -109,6 +118,9 @@ def _write_project_files(files: dict | None) -> None:
         os.makedirs(os.path.dirname(name) or ".", exist_ok=True)
         with open(name, "wb") as f:
             f.write(data)
+        # the project's files carry the time stamp of the release they were copied from (cp -p, rsync -t, a file system with coarse
+        # time stamps): a rewritten file does not necessarily look newer
+        os.utime(name, (1_700_000_000, 1_700_000_000))
 
 
 def run_action(a: dict):
@@ -137,7 +149,18 @@ def run_action(a: dict):
             return assemble(a["src"], files=None, rom=a.get("rom"), defines=a.get("defines"))
         return assemble(a["src"], files=a.get("files") or None, rom=a.get("rom"), defines=a.get("defines"))
     from vf.frontends import cli_inprocess, file_api
+    import vf.frontends as fe
 
+    # in the long-lived process an output file of an earlier build lies at the output path for every other run (the fresh-process baseline
+    # writes to an empty directory): what is there before is no input of the assembly
+    fe.STALE_OUTPUT["on"] = "--baseline" not in sys.argv and len(a["src"]) % 2 == 0
+    try:
+        return _run_front(a, kind, cli_inprocess, file_api)
+    finally:
+        fe.STALE_OUTPUT["on"] = False
+
+
+def _run_front(a: dict, kind: str, cli_inprocess, file_api):
     if kind == "api":
         return file_api(a.get("fmt", "patch"), a["src"], a.get("files"), a.get("rom") or "low", a.get("copier", False), a.get("defines"))
     return cli_inprocess(a.get("fmt", "ips"), a["src"], a.get("files"), a.get("rom") or "low", False, [f"{k}={v}" for k, v in (a.get("defines") or {}).items()])
@@ -173,7 +196,11 @@ def dec(a: dict) -> dict:
 def fresh_baseline(probe: dict) -> dict | None:
     env = dict(os.environ)
     env["PYTHONPATH"] = os.pathsep.join([os.path.dirname(os.path.dirname(os.path.dirname(os.path.abspath(__file__)))), REPO])
-    env["PYTHONHASHSEED"] = "0"
+    # the fresh interpreter runs with another hash seed than this process (each probe with its own): the order in which Python happens to
+    # walk a set is no input of the assembly either
+    import zlib
+
+    env["PYTHONHASHSEED"] = str(1 + zlib.crc32(probe["name"].encode()) % 97)
     try:
         cp = subprocess.run([sys.executable, "-W", "ignore", "-m", "vf.checks.c19", "--baseline"], input=json.dumps(enc(probe)), capture_output=True, text=True,
                             timeout=120, env=env)
